@@ -8,6 +8,7 @@ import numpy as np
 import common as C
 
 META = {
+    "claimed": True,
     "id": "C19",
     "coq_targets": ["Props/C19.vo", "Extract/Extract_C19.vo"],
     "technique": "Coq proof (induction over the frame list; fold invariant for the by-track painter) + differential correspondence of the extracted model with the implementation",
